@@ -29,6 +29,7 @@ static int g_tracked[64];
 static int g_ntracked = 0;
 static std::vector< Op > g_log;
 static int g_tag = 0;
+static char g_filter[128] = "";
 
 void arm(long crash_at, int variant, double torn_fraction) {
   g_armed = true;
@@ -40,6 +41,12 @@ void arm(long crash_at, int variant, double torn_fraction) {
   g_log.clear();
 }
 void disarm() { g_armed = false; }
+void set_filter(const char *substr) {
+  snprintf(g_filter, sizeof g_filter, "%s", substr ? substr : "");
+}
+static bool matches(const char *path) {
+  return g_filter[0] == 0 || (path && strstr(path, g_filter) != nullptr);
+}
 long count() { return g_count; }
 void set_tag(int tag) { g_tag = tag; }
 const std::vector< Op > &log() { return g_log; }
@@ -94,7 +101,7 @@ FILE *fopen64(const char *path, const char *mode) {
   static fn_t real = (fn_t)dlsym(RTLD_NEXT, "fopen64");
   const bool writing = mode && (strchr(mode, 'w') || strchr(mode, 'a') ||
                                 strchr(mode, '+'));
-  if (!g_armed || !writing)
+  if (!g_armed || !writing || !matches(path))
     return real(path, mode);
   const int what = next_op("open", path, 0);
   if (what == 1)
@@ -171,7 +178,7 @@ int fclose(FILE *f) {
 }
 
 int rename(const char *from, const char *to) {
-  if (!g_armed)
+  if (!g_armed || (!matches(from) && !matches(to)))
     return (int)syscall(SYS_rename, from, to);
   char both[1024];
   snprintf(both, sizeof both, "%s -> %s", from, to);
